@@ -64,6 +64,7 @@ type Machine struct {
 	unknown   bool // a feasibility query answered unknown on this path
 	par       *parState
 	poolFree  map[*Value][]Value
+	dumpCache map[any]Value
 
 	// per-worker statistics
 	forks      int
@@ -83,6 +84,7 @@ func (m *Machine) resetPath(prefix []int) {
 	m.unknown = false
 	m.par = nil
 	m.poolFree = map[*Value][]Value{}
+	m.dumpCache = nil
 	m.globals = map[*ssa.Global]*Value{}
 	for _, g := range m.ex.repoGlobals {
 		v := zero(g.Type().Underlying().(*types.Pointer).Elem())
